@@ -54,6 +54,9 @@ func (ld *LineDiscount) Validate() error {
 
 // IsEmpty returns true if the discount is empty.
 func (ld *LineDiscount) IsEmpty() bool {
+	if ld == nil {
+		return true
+	}
 	return ld.Key.IsEmpty() &&
 		ld.Code.IsEmpty() &&
 		ld.Reason == "" &&
